@@ -43,7 +43,7 @@ def _c01_runs(tier):
         if mode != "big":  # the block / cutoff thresholds of the host's cache sizes are beyond the bounded sizes: the run would be empty
             rs.append(_w(Run(C(), "harness/p_c01.c", ["--mode=" + mode], group="host-" + mode), 8 if (mode == "grid" and tier == "thorough") else 1))
         rs.append(_w(Run(C(sse2=0, **MIN), "harness/p_c01.c", ["--mode=" + mode], group="min-" + mode), 8 if (mode == "grid" and tier == "thorough") else 1))
-    rs.append(_omp_run("C01", 0x2f, tier))
+    rs.append(_omp_run("C01", 0x402f, tier))
     return rs
 
 PROPS["C01"] = dict(
